@@ -14,4 +14,5 @@ import Refine.Lemmas.MatrixRot0
 import Refine.Lemmas.MatrixFun
 import Refine.Lemmas.MatrixInv
 import Refine.Lemmas.MatrixQL
+import Refine.Lemmas.MatrixBlock2
 import Refine.Props.C16
